@@ -2,39 +2,57 @@
 consumes that `Result`.
 
 Scans all non-test Rust sources of the two crates. An *error-returning function* is a `fn` whose
-return type is `Result<_, E>` — written out or through `type` aliases of the scanned sources
-(`type R<E> = Result<(), E>`) — with E EXACTLY a path ending in `::Error` (`D::Error`, `T::Error`,
-`<D as DrawTarget>::Error`; `Self::Error` only if the surrounding impl/trait declares `type Error;`,
-assigns `type Error = X::Error;` or does not mention it). `Result<(), Wrap<D::Error>>` or
-`type Error = Wrap<T::Error>` is NOT one: a `?` there converts the error value through `From`.
-Every call site of such a function (by name) inside any function body is classified by what
-happens to its value. A site is classified as *propagating* only if, whenever the call returns
-`Err(e)`, the enclosing function returns `Err(e)` (the same value) at once, i.e. without evaluating
-any other call site first:
+return type (the text after the signature's own `->`: the first one outside ( ) [ ] < >, so not the
+`->` of a parameter `f: impl Fn(u32) -> u32` or of a bound) is `Result<_, E>` — written out or
+through `type` aliases of the scanned sources (`type R<E> = Result<(), E>`) — with E EXACTLY a path
+ending in `::Error` (`D::Error`, `T::Error`, `<D as DrawTarget>::Error`; `Self::Error` only if the
+surrounding impl/trait declares `type Error;`, assigns `type Error = X::Error;` or does not mention
+it). `Result<(), Wrap<D::Error>>` or `type Error = Wrap<T::Error>` is NOT one: a `?` there converts
+the error value through `From`.
+A *call site* is a call expression BY NAME of such a function inside a function body: `NAME(`,
+`.NAME(`, `PATH::NAME(`, also with generic arguments `NAME::<A, B<C>>(` (nested `<..>` are balanced).
+Every site is classified by what happens to its value. The rules are SYNTACTIC and strict: a site is
+classified as *propagating* only in one of the forms below, chosen so that whenever the call returns
+`Err(e)` the enclosing function returns `Err(e)` (the same value) at once, i.e. without evaluating
+any other call site first. Forms that would propagate in fact but are not listed are refused (alarm
+side; see the `alarm_*` regression cases).
 
   q          followed by `?` (possibly after `.map(..)`, which cannot touch an `Err`), in a function
              that itself returns the target's error, not inside a closure
   tail       value of the enclosing function body (directly, or as the value of a tail `if/else`
-             / `match` arm / block), and the enclosing function is itself error-returning
+             / `match` arm / plain or `unsafe` block), and the enclosing function is itself
+             error-returning
   ret        `return <call>;`, `if c { return <call> }`, `pat => return <call>,` (same conditions as q)
-  bound_q    `let x = <call>;` whose FIRST later mention of `x` is `x?` (or `x` as the value of the
-             function body) in the same block at the same nesting depth (so it is reached
-             unconditionally), with no other call site, `?`, `return`, `break` or `continue` in between
-  match_ret  `match <call> { Err(e) => return Err(e), .. }` or `e @ Err(_) => return e` (the only arm
-             mentioning `Err`, no guard, only `Ok(..)` arms before it) and
+  bound_q    `let x = <call>;` whose FIRST later mention of `x` is in the same block at the same
+             nesting depth, with no other call site, `?`, `return`, `break` or `continue` in between,
+             and is `x?` standing FIRST in its statement — nothing before it in that statement but
+             `let PATTERN =` (so not `c && x? == ()`, `while c && x? ..`, `|| x?`, `f(a, x?)`) — or
+             `x` alone as the value of the function body
+  match_ret  `match <call> { Err(e) => return Err(e), .. }` or `e @ Err(_) => return e`: the only arm
+             mentioning `Err`, no guard on it, and every arm before it a PLAIN `Ok(..)` pattern (no
+             `|` alternative after the `)`, no guard: `Ok(()) | _`, `Ok(()) | Bad(_)` are refused); and
              `if let Err(e) = <call> { return Err(e); }`
   tryclosure value (tail, `?` or `return`) of a closure that is a whole argument of the standard
              `try_for_each`/`try_fold` whose own result is q/tail/ret/... (not trusted when the scanned
              sources define a function of that name themselves)
 
-Closures: a site is *inside a closure* when ANY `|..|` / `||` / `move |..|` head encloses it — with a
-block body or without braces (`let g = |i| match i { .. <site>? .. }`), bound by `let` or passed as an
-argument (`closure_at`). `?` / `return` there only leave the closure, so whatever the form, a site
+Closures: a site is *inside a closure* when a `|..|` / `||` / `move |..|` head encloses it — with a
+block body or without braces (`let g = |i| match i { .. <site>? .. }`), bound by `let`, passed as an
+argument, written as a struct-literal field (`f: |..| ..`) or after a label (`closure_at`). A `|` is
+taken for a closure head UNLESS it directly follows the end of an operand — a word that is neither an
+expression keyword (`move`, `return`, ..) nor a label, a literal, `)`, `]`, `?` — where it is a binary
+or / an or-pattern. `?` / `return` in a closure only leave the closure, so whatever the form, a site
 inside a closure is non-propagating unless the innermost closure is a `tryclosure` one.
 
-Macros: a site inside the body of a `macro_rules!` is `unknown` (the body is expanded elsewhere, e.g.
-inside a closure whose result is dropped) unless it is inside a whole `fn` item of that body; sites of
-macro bodies outside every function are listed with fn = "macro_rules! NAME".
+Opaque contexts (`opaque_context`): a site inside the ARGUMENTS of a macro invocation `name!( .. )` /
+`name![ .. ]` / `name!{ .. }` is `unknown` whatever its form (the macro decides where and whether its
+arguments are expanded: `attempt!(call?)` may wrap them in a closure whose result is dropped); no
+macro is trusted to be transparent (`TRANSPARENT_MACROS` is empty: the current sources have no site
+in macro arguments). A site inside an `async` / `try` block is `unknown` (`?` leaves only the block).
+
+Macro definitions: a site inside the body of a `macro_rules!` is `unknown` (the body is expanded
+elsewhere, e.g. inside a closure whose result is dropped) unless it is inside a whole `fn` item of
+that body; sites of macro bodies outside every function are listed with fn = "macro_rules! NAME".
 
 Everything else does not propagate:
 
@@ -43,20 +61,32 @@ Everything else does not propagate:
              `.and(..)`, closure passed to a non-`try_` adaptor (std or home-made) or bound by `let`,
              argument of another call, a bound variable that is used late / conditionally / never,
              `?` in a function returning another error type, ...
-  unknown    a form this scan does not understand (counts as not propagating): macro bodies, `?` in a
-             function whose error type mentions but is not exactly the target's, ...
+  unknown    a form this scan does not follow (counts as not propagating): macro bodies and macro
+             arguments, a call as the value of a `break` (the loop's / labelled block's value is not
+             followed), `?` in a function whose error type mentions but is not exactly the target's,
+             an unknown method on the result, ...
+
+What the rules do NOT see (listed as [V] lines in EG/Props/C04.lean): calls not made by name
+(function pointers, method paths, a name that is a macro argument), whether two `X::Error` paths are
+the same TYPE, errors dropped by means that are not a call-site form (`mem::forget`, wrapper types),
+a method named `try_for_each` / `try_fold` defined outside the scanned sources, and any Rust syntax
+for delaying evaluation other than closures, macro arguments and `async` / `try` blocks.
 
 Output: lean/EG/Generated/DrawSites.lean with one record per site, plus the number of call
 expressions per file found by an INDEPENDENT textual scan (`textual_scan`, line oriented, no
 function/bracket parsing). `all_sites_propagate` and `prefix_law_sites` (EG/Props/C04.lean) are
-decided over this table, so a dropped `?`, a `let _ =`, an `.ok()` or a deferred `?` changes the
+decided over this table, so a site that is not in one of the six propagating forms changes the
 generated file and breaks the theorems; `sites_match_textual_scan` breaks when the classifier's
-parser does not see a call expression that the textual scan sees (or vice versa).
+parser does not see a call expression that the textual scan sees (or vice versa). Both scans share
+the notion of a call expression (`NAME(`, `NAME::<..>(`): a call written in a way neither recognises
+is seen by neither.
 
 `generate()` (run by tools/translate.py on every ./check) first runs `selftest()` on the snippets
 in tools/tests/drawsites_cases*.rs (every function there carries its expected kinds in a
 `// expect:` comment; each file is scanned as a source tree of its own);
-`python3 tools/tr_drawsites.py --selftest` runs it alone.
+`python3 tools/tr_drawsites.py --selftest` runs it alone. The cases marked `violates` were checked
+against a fault-injecting target (tools/tests/drawsites_validate_audit4.rs does it for the fourth
+audit's file and can be re-run).
 """
 import os
 import re
@@ -69,6 +99,8 @@ DISCARD_METHODS = {"ok", "unwrap_or", "unwrap_or_default", "unwrap_or_else", "is
 # (`map`'s closure only runs on `Ok`; a call site inside that closure is classified on its own)
 PASS_METHODS = {"map"}
 TRY_ADAPTORS = {"try_for_each", "try_fold"}
+# `<..>` with up to three levels of nested `<..>` inside (for text matched BACKWARDS from a `(`)
+ANGLE = r"<(?:[^<>]|<(?:[^<>]|<(?:[^<>]|<[^<>]*>)*>)*>)*>"
 PROPAGATING = ("q", "tail", "ret", "bound_q", "match_ret", "tryclosure")
 
 
@@ -292,6 +324,24 @@ class Fn:
             self.err = self_error_is_targets(s, self.pos)
 
 
+def return_type(sig):
+    """the text after the signature's own `->`: the first one outside ( ) [ ] < > (the `->` of a
+    parameter `f: impl Fn(u32) -> u32` or of a bound `<F: Fn(u32) -> u32>` is not it); "" if none"""
+    depth, k = 0, 0
+    while k < len(sig):
+        if sig.startswith("->", k):
+            if depth == 0:
+                return sig[k + 2:]
+            k += 2
+            continue
+        if sig[k] in "([<":
+            depth += 1
+        elif sig[k] in ")]>":
+            depth -= 1
+        k += 1
+    return ""
+
+
 def find_fns(s, file):
     fns = []
     for m in re.finditer(r"\bfn\s+(\w+)", s):
@@ -308,13 +358,10 @@ def find_fns(s, file):
                 break
             i += 1
         if i >= len(s) or s[i] == ";":
-            sig = s[m.end(): i]
-            ret = sig.split("->", 1)[1] if "->" in sig else ""
+            ret = return_type(s[m.end(): i]).split("where")[0]
             fns.append(Fn(m.group(1), ret, None, None, file, m.start()))
             continue
-        sig = s[m.end(): i]
-        ret = sig.split("->", 1)[1] if "->" in sig else ""
-        ret = ret.split("where")[0]
+        ret = return_type(s[m.end(): i]).split("where")[0]
         fns.append(Fn(m.group(1), ret, i, match_close(s, i), file, m.start()))
     return fns
 
@@ -363,9 +410,10 @@ def level_start(s, i, lo):
 def closure_head_before(s, a, b):
     """scan s[a:b] (text of ONE bracket level; nested groups are skipped) for closure heads `|args|`,
     `||`, `move |args|`. Returns the index of the `|` opening the closure whose body contains
-    position b, or None. A `|` is a closure head iff it stands where an expression starts (after
-    `( , = ; { } [ => ! &` or a keyword such as `move` / `return`); after an operand it is a
-    binary or / an or-pattern. A closure body without braces ends at the next `,` of its level
+    position b, or None. A `|` is a closure head unless it directly follows the end of an operand
+    (a word that is neither a keyword such as `move` / `return` nor a label, a literal, `)`, `]`,
+    `?`), where it is a binary or / an or-pattern: so also after `:` (struct-literal field), a
+    label, `..`, `<`. A closure body without braces ends at the next `,` of its level
     (not a comma inside `::<..>`, nor one after an unclosed `<`: `x as P<A, B>`; a `-> Type` after
     the head is skipped up to the body's `{`). When in doubt the answer is "inside a closure"."""
     i, inside, angle = a, None, 0
@@ -401,15 +449,18 @@ def closure_head_before(s, a, b):
             j = i - 1
             while j >= a and s[j].isspace():
                 j -= 1
-            if j < a or s[j] in "(,=;{}[!&|" or (s[j] == ">" and j > 0 and s[j - 1] == "="):
-                starts = True
-            elif s[j].isalnum() or s[j] == "_":
+            if j >= a and (s[j].isalnum() or s[j] == "_"):
+                # after a word: an operand (binary or / or-pattern) unless the word is a keyword after
+                # which an expression starts, or a label (`break 'a |..| ..`)
                 k = j
                 while k >= a and (s[k].isalnum() or s[k] == "_"):
                     k -= 1
-                starts = s[k + 1: j + 1] in EXPR_START_KEYWORDS
+                starts = s[k + 1: j + 1] in EXPR_START_KEYWORDS or (k >= 0 and s[k] == "'")
             else:
-                starts = False
+                # after the end of an operand (`)`, `]`, `?`, a string / char literal) it is a binary or /
+                # an or-pattern; anywhere else (`( , = ; : { } [ => ! & | < > + ..`, start of the text) a
+                # closure head
+                starts = j < a or s[j] not in ")]?\"'"
             double = s.startswith("||", i)
             if not starts:
                 i += 2 if double else 1
@@ -468,6 +519,32 @@ def closure_body_at(s, fn, pos):
     if between == "" or (s[pos] == "{" and re.match(r"^->[^{;]*$", between)):
         return clo
     return None
+
+
+# macros known to expand to their argument where it stands (so that a `?` / `return` / tail value in the
+# argument means what it says); the current sources need none
+TRANSPARENT_MACROS = set()
+
+
+def opaque_context(s, fn, pos):
+    """is position pos of fn's body inside the arguments of a macro invocation `name!( .. )` /
+    `name![ .. ]` / `name!{ .. }` (the macro decides where its arguments are expanded: inside a closure
+    whose result is dropped, twice, never) or inside an `async` / `try` block (`?` only leaves the
+    block)? Returns a description, or None."""
+    child = pos
+    while True:
+        op = enclosing_open(s, child, fn.open)
+        if op is None or op == fn.open:
+            return None
+        before = s[max(0, op - 80): op]
+        m = re.search(r"(\w+)\s*!\s*$", before)
+        if m and m.group(1) not in TRANSPARENT_MACROS and m.group(1) not in EXPR_START_KEYWORDS:  # `if !(..)` is a negation
+            return "inside the arguments of the macro invocation " + m.group(1) + "! (expanded by the macro)"
+        if s[op] == "{":
+            m = re.search(r"\b(async|try)(\s+move)?\s*$", before)
+            if m:
+                return "inside an `" + m.group(1) + "` block (`?` leaves only the block)"
+        child = op
 
 
 def exits_function(s, fn, expr_start, how, depth_guard):
@@ -570,8 +647,11 @@ def classify_scrutinee(s, fn, expr_start, brace, depth_guard):
                 or re.match(r"^\{\s*return\s+" + value + r"\s*;?\s*\}$", expr)):
             return ("discarded", "Err arm `" + pattern[:20] + "` does not return that error at once")
         for pattern2, _ in arms[:k]:
-            if not re.match(r"^Ok\s*\(", pattern2):
-                return ("discarded", "arm `" + pattern2[:30] + "` before the Err arm")
+            # a PLAIN `Ok(..)` pattern: no `|` alternative after it (`Ok(()) | _`, `Ok(()) | Bad(_)` with
+            # `use Result::Err as Bad` catch the `Err`), no guard
+            mo = re.match(r"^Ok\s*\(", pattern2)
+            if not mo or match_close(pattern2, mo.end() - 1) != len(pattern2) - 1:
+                return ("discarded", "arm `" + pattern2[:30] + "` before the Err arm is not a plain `Ok(..)` pattern")
         bad = exits_function(s, fn, expr_start, "return", depth_guard)
         return bad if bad else ("match_ret", "match")
     if re.search(r"\b(if|while)\s+let\b[^;{}]*=\s*$", head):
@@ -600,15 +680,24 @@ def classify_binding(s, fn, var, semi, expr_start, depth_guard):
             depth -= 1
     if depth != 0:
         return ("discarded", "let " + var + " first used inside a nested block or call (not unconditional)")
-    if fn.pat.search(between):
+    if any(True for _ in iter_sites(fn.pat, between)):
         return ("discarded", "let " + var + ": another call site before its first use")
-    mx = re.search(r"\?|\b(return|break|continue)\b", between)
+    # the first use must be the FIRST thing its statement evaluates: nothing before it in that statement
+    # but `let PATTERN =` (`c && x? == ()`, `while c && x? ..`, `f(a, x?)`, `|| x?` are conditional
+    # or deferred uses)
+    cut = max(between.rfind(";"), between.rfind("}"), between.rfind("{")) + 1
+    earlier, prefix = between[:cut], between[cut:]
+    mx = re.search(r"\?|\b(return|break|continue)\b", earlier)
     if mx:
         return ("discarded", "let " + var + ": `" + mx.group(0) + "` before its first use")
+    if not re.match(r"^\s*(let\s+(mut\s+)?[\w\s(),&]+(:[^=;]*)?=\s*)?$", prefix):
+        return ("discarded", "let " + var + ": first use is not at the start of its statement (`" + " ".join(prefix.split())[:30] + "` before it)")
     after = region[mu.end():]
     if re.match(r"\s*\?", after):
         bad = exits_function(s, fn, expr_start, "?", depth_guard)
         return bad if bad else ("bound_q", var)
+    if prefix.strip() != "":
+        return ("discarded", "let " + var + ": first use is neither `" + var + "?` nor the function's value")
     if after.strip() == "" and blk == fn.open:
         return ("bound_q", var + " (tail)") if fn.err else ("discarded", "tail of non-error fn " + fn.name)
     return ("discarded", "let " + var + ": first use is neither `" + var + "?` nor the function's value")
@@ -627,11 +716,17 @@ def classify(s, fn, expr_start, e, depth_guard=0):
         bad = exits_function(s, fn, expr_start, "?", depth_guard)
         return bad if bad else ("q", "")
     if c == ".":
-        m = re.match(r"\.\s*(\w+)\s*(::\s*<[^>]*>)?\s*\(", s[i:])
+        m = re.match(r"\.\s*(\w+)\s*", s[i:i + 200])
         if not m:
             return ("unknown", "field-access")
         name = m.group(1)
-        close = match_close(s, i + m.end() - 1)
+        k = skip_turbofish(s, i + m.end())
+        k = i + m.end() if k is None else k
+        while k < n and s[k].isspace():
+            k += 1
+        if k >= n or s[k] != "(":
+            return ("unknown", "field-access")
+        close = match_close(s, k)
         if name in DISCARD_METHODS:
             return ("discarded", "." + name + "()")
         if name in PASS_METHODS:
@@ -639,6 +734,12 @@ def classify(s, fn, expr_start, e, depth_guard=0):
         return ("unknown", "method ." + name)
     if c == "{":
         return classify_scrutinee(s, fn, expr_start, i, depth_guard)
+    if c in "},;":
+        # `break <call>` / `break 'label <call>`: the value of a loop or labelled block; what happens to that
+        # value is not followed
+        head = s[stmt_start(s, expr_start, fn.open + 1): expr_start].strip()
+        if re.search(r"(^|=>\s*)break(\s+'\w+)?$", head):
+            return ("unknown", "value of a `break` (the loop's / block's value is not followed)")
     if c == ";":
         st = stmt_start(s, expr_start, fn.open + 1)
         head = s[st:expr_start].strip()
@@ -746,7 +847,7 @@ def classify_closure(s, fn, head, level_open, depth_guard):
     if j != level_open and s[j] != ",":
         return ("discarded", "closure inside a larger argument expression")
     call_open = level_open
-    m = re.search(r"\.\s*(\w+)\s*(::\s*<[^>]*>)?\s*$", s[max(0, call_open - 200): call_open])
+    m = re.search(r"\.\s*(\w+)\s*(::\s*" + ANGLE + r")?\s*$", s[max(0, call_open - 200): call_open])
     if not m:
         return ("discarded", "closure passed to a function")
     name = m.group(1)
@@ -775,8 +876,43 @@ def source_files(repo):
     return files
 
 
+def skip_turbofish(s, i):
+    """s[i:] is `::<..>` (white space allowed around the `::`): index just after the `>` that balances
+    the `<` (nested `<..>` are counted, the `>` of a `->` is not one); None if it is not a turbofish
+    or does not close"""
+    m = re.match(r"\s*::\s*<", s[i:i + 40])
+    if not m:
+        return None
+    depth = 0
+    for k in range(i + m.end() - 1, len(s)):
+        if s[k] == "<":
+            depth += 1
+        elif s[k] == ">" and s[k - 1] != "-":
+            depth -= 1
+            if depth == 0:
+                return k + 1
+        elif s[k] in ";{}":
+            return None
+    return None
+
+
 def site_pattern(names):
-    return re.compile(r"(?<![\w])(?:\.\s*)?\b(" + "|".join(sorted(map(re.escape, names))) + r")\s*(::\s*<[^>]*>)?\s*\(")
+    return re.compile(r"(?<![\w])(?:\.\s*)?\b(" + "|".join(sorted(map(re.escape, names))) + r")\s*(?=\(|::\s*<)")
+
+
+def iter_sites(pat, text):
+    """call expressions `NAME(` / `.NAME(` / `NAME::<T, U<V>>(` in text: (start, NAME, index of the `(`)"""
+    for m in pat.finditer(text):
+        j = m.end()
+        if text[j] != "(":
+            j = skip_turbofish(text, j)
+            if j is None:
+                continue
+            while j < len(text) and text[j].isspace():
+                j += 1
+            if j >= len(text) or text[j] != "(":
+                continue
+        yield m.start(), m.group(1), j
 
 
 def macro_bodies(s):
@@ -819,9 +955,8 @@ def scan(repo):
                 continue
             fn.pat = pat
             body = s[fn.open: fn.close + 1]
-            for m in pat.finditer(body):
-                start = fn.open + m.start()
-                name = m.group(1)
+            for m_start, name, m_open in iter_sites(pat, body):
+                start = fn.open + m_start
                 # skip definitions (`fn name(`)
                 if re.search(r"\bfn\s+$", s[max(0, start - 8): start + (1 if s[start] == '.' else 0)]):
                     continue
@@ -832,7 +967,7 @@ def scan(repo):
                 inner = [g for g in fns if g.open is not None and g.open > fn.open and g.close < fn.close and g.open < start < g.close]
                 if inner:
                     continue
-                call_open = fn.open + m.end() - 1
+                call_open = fn.open + m_open
                 call_close = match_close(s, call_open)
                 # the whole postfix expression starts at the receiver; for classification only the end matters,
                 # the start is used for statement/closure detection: walk back over the receiver chain
@@ -877,6 +1012,11 @@ def scan(repo):
                         kind = "tryclosure"
                     else:
                         kind, detail = (k2 if k2 == "unknown" else "discarded"), "inside a closure: " + d2
+                # arguments of a macro invocation, `async` / `try` blocks: what `?` / `return` / tail position mean
+                # there is decided elsewhere
+                why = opaque_context(s, fn, start)
+                if why:
+                    kind, detail = "unknown", why
                 # the body of a `macro_rules!` is expanded somewhere else: what `?` / `return` / tail position mean
                 # there is not known here — unless the site is inside a `fn` item that is itself part of the macro body
                 for mname, mo, mc in macros:
@@ -886,13 +1026,13 @@ def scan(repo):
                               "fnline": s.count("\n", 0, fn.pos) + 1})
         # call expressions in macro bodies outside every function body
         for mname, mo, mc in macros:
-            for m in pat.finditer(s[mo: mc + 1]):
-                start = mo + m.start()
+            for m_start, name, _ in iter_sites(pat, s[mo: mc + 1]):
+                start = mo + m_start
                 if re.search(r"\bfn\s+$", s[max(0, start - 8): start + (1 if s[start] == '.' else 0)]):
                     continue
                 if any(g.open is not None and g.open < start < g.close for g in fns):
                     continue
-                sites.append({"file": rel, "line": s.count("\n", 0, start) + 1, "fn": "macro_rules! " + mname, "callee": m.group(1),
+                sites.append({"file": rel, "line": s.count("\n", 0, start) + 1, "fn": "macro_rules! " + mname, "callee": name,
                               "kind": "unknown", "detail": "inside the body of macro_rules! " + mname + ", outside any fn (expanded elsewhere)", "pos": start,
                               "fnline": s.count("\n", 0, mo) + 1})
     order = {os.path.relpath(f, repo): k for k, f in enumerate(parsed)}
@@ -904,8 +1044,9 @@ def textual_scan(repo):
     """INDEPENDENT count of call expressions, per file: line oriented, shares no code with
     find_fns / classify / blank_comments_and_strings / strip_tests (no function bodies, no bracket
     matching). Names: every `fn NAME .. -> Result<.., X::Error>` signature found by one regular
-    expression over the text; calls: every `NAME(` that is not the definition `fn NAME(`, anywhere
-    in the file (also outside function bodies, e.g. in macro definitions), outside `//` comments,
+    expression over the text (the text after ANY `->` of the signature is tried as the return type);
+    calls: every `NAME(` / `NAME::<..>(` (angle brackets counted) that is not the definition
+    `fn NAME(`, anywhere in the file (also outside function bodies, e.g. in macro definitions), outside `//` comments,
     one-line string literals, `/* */` comments and `#[cfg(test)] mod .. { }` (skipped by counting
     the braces of the lines). Returns ({relative file: count}, names)."""
     texts = {}
@@ -953,10 +1094,16 @@ def textual_scan(repo):
     names = set()
     for text in texts.values():
         blocks = [m.start() for m in block_re.finditer(text)]
+        cands = []
         for m in re.finditer(r"\bfn\s+(\w+)\b([^{;]*)", text):
-            if "->" not in m.group(2) or m.group(1) in ("try_from", "try_into"):
+            if m.group(1) in ("try_from", "try_into"):
                 continue
-            ret = "".join(m.group(2).split("->", 1)[1].split("where")[0].split())  # all white space removed
+            # the text after EACH `->` of the signature is tried as the return type (the first `->` may
+            # belong to a parameter `f: impl Fn(u32) -> u32` or a bound; such a suffix does not match below)
+            for piece in re.finditer(r"->", m.group(2)):
+                cands.append((m, m.group(2)[piece.end():]))
+        for m, after_arrow in cands:
+            ret = "".join(after_arrow.split("where")[0].split())  # all white space removed
             for _ in range(3):
                 am = re.match(r"^(?:\w+::)*(\w+)(?:<(.*)>)?$", ret)
                 if not am or am.group(1) not in talias or (am.group(1) == "Result" and "::" in ret.split("<")[0]):
@@ -997,12 +1144,24 @@ def textual_scan(repo):
             names.add(m.group(1))
     if not names:
         raise ValueError("textual scan: no error-returning function found")
-    call = re.compile(r"(?<![\w])(" + "|".join(sorted(map(re.escape, names))) + r")\s*(?:::\s*<[^>]*>)?\s*\(")
+    call = re.compile(r"(?<![\w])(" + "|".join(sorted(map(re.escape, names))) + r")\b\s*(::\s*<)?")
     counts = {}
     for rel, text in texts.items():
         n = 0
         for m in call.finditer(text):
             if re.search(r"\bfn\s+$", text[max(0, m.start() - 12): m.start()]):
+                continue
+            rest = text[m.end(): m.end() + 400]
+            if m.group(2):
+                # generic arguments `NAME::<A, B<C>>(`: drop text up to the `>` that closes the first `<`
+                open_angles, prev = 1, ""
+                while rest and open_angles > 0:
+                    if rest[0] == "<":
+                        open_angles += 1
+                    elif rest[0] == ">" and prev != "-":
+                        open_angles -= 1
+                    prev, rest = rest[0], rest[1:]
+            if not rest.lstrip().startswith("("):
                 continue
             n += 1
         if n:
@@ -1060,7 +1219,7 @@ def selftest():
         b, k = selftest_file(os.path.join(here, "tests", f))
         bad += b
         n += k
-    if n < 40 or len(files) < 2:
+    if n < 70 or len(files) < 3:
         raise ValueError("drawsites self-test: case files not understood")
     return bad
 
